@@ -304,3 +304,49 @@ package fzf
 //@ loop 1
 //@   invariant 0 <= begin && begin <= len(text) && (iter == 0 ==> begin == 0) && (iter > 0 ==> begin == locs[iter-1][1]) && (tokens == nil || fresh(tokens))
 //@   invariant forall(k, 0, len(tokens), len(tokens[k]) <= len(text))
+
+// Chars.ToString converts through unsafe.String / string([]rune): contract assumed.
+//@ package github.com/junegunn/fzf/src/util
+//@ func Chars.ToString trusted
+//@ package github.com/junegunn/fzf/src
+
+//@ func JoinTokens
+//@ property C10
+//@ requires forall(k, 0, len(tokens), tokens[k].text != nil)
+//@ ensures len(result) < 2147483648
+//@ note the concatenated content is produced by bytes.Buffer and is not specified
+
+// Field index expressions (1-based; negative counts from the end; 0 = open end):
+//   N     -> field N            A..B -> fields A through B        A.. / ..B -> open on one side
+//@ spec func rsv(x int, n int) int = x < 0 ? x + n + 1 : x
+//@ spec func selLo(r Range, n int) int = r.begin == r.end ? rsv(r.begin, n) : (r.begin == 0 ? 1 : rsv(r.begin, n))
+//@ spec func selHi(r Range, n int) int = r.begin == r.end ? rsv(r.begin, n) : (r.end == 0 ? n : rsv(r.end, n))
+//@ spec func selFrom(r Range, n int) int = max(selLo(r, n), 1)
+//@ spec func selTo(r Range, n int) int = min(selHi(r, n), n)
+//@ spec func numSel(r Range, n int) int = selTo(r, n) >= selFrom(r, n) ? selTo(r, n) - selFrom(r, n) + 1 : 0
+// index of the field whose recorded offset the result inherits
+//@ spec func selMin(r Range, n int) int = r.begin == r.end ? (numSel(r, n) == 1 ? selFrom(r, n) - 1 : 0) : max(0, selLo(r, n) - 1)
+//@ spec func isAll(r Range) bool = r.begin == 0 && r.end == 0
+
+//@ func Transform
+//@ property C10
+//@ requires forall(k, 0, len(tokens), tokens[k].text != nil) && len(tokens) < 1073741824
+//@ requires forall(k, 0, len(withNth), -1073741824 < withNth[k].begin && withNth[k].begin < 1073741824 && -1073741824 < withNth[k].end && withNth[k].end < 1073741824)
+//@ ensures len(result) == len(withNth) && fresh(result)
+//@ ensures forall(k, 0, len(result), result[k].text != nil)
+//@ ensures forall(k, 0, len(result), result[k].prefixLength == (selMin(withNth[k], len(tokens)) < len(tokens) ? tokens[selMin(withNth[k], len(tokens))].prefixLength : 0))
+//@ ensures forall(k, 0, len(result), !isAll(withNth[k]) && numSel(withNth[k], len(tokens)) == 0 ==> clen(result[k].text) == 0)
+//@ ensures forall(k, 0, len(result), !isAll(withNth[k]) && numSel(withNth[k], len(tokens)) == 1 ==> result[k].text.slice == tokens[selFrom(withNth[k], len(tokens)) - 1].text.slice && result[k].text.inBytes == tokens[selFrom(withNth[k], len(tokens)) - 1].text.inBytes)
+//@ assert @"switch len(parts)" forall(j, 0, len(parts), parts[j] != nil)
+//@ loop 1
+//@   invariant numTokens == len(tokens) && len(transTokens) == len(withNth) && fresh(transTokens)
+//@   invariant forall(k, 0, iter, transTokens[k].text != nil && allocated(transTokens[k].text))
+//@   invariant forall(k, 0, iter, transTokens[k].prefixLength == (selMin(withNth[k], len(tokens)) < len(tokens) ? tokens[selMin(withNth[k], len(tokens))].prefixLength : 0))
+//@   invariant forall(k, 0, iter, !isAll(withNth[k]) && numSel(withNth[k], len(tokens)) == 0 ==> clen(transTokens[k].text) == 0)
+//@   invariant forall(k, 0, iter, !isAll(withNth[k]) && numSel(withNth[k], len(tokens)) == 1 ==> transTokens[k].text.slice == tokens[selFrom(withNth[k], len(tokens)) - 1].text.slice && transTokens[k].text.inBytes == tokens[selFrom(withNth[k], len(tokens)) - 1].text.inBytes)
+//@ loop 2
+//@   invariant begin == selLo(r, numTokens) && end == selHi(r, numTokens) && r.begin != r.end && begin <= idx && idx <= max(end + 1, begin) && (parts == nil || fresh(parts))
+//@   invariant len(parts) == (min(idx - 1, numTokens) >= max(begin, 1) ? min(idx - 1, numTokens) - max(begin, 1) + 1 : 0)
+//@   invariant forall(j, 0, len(parts), parts[j] == tokens[max(begin, 1) - 1 + j].text)
+//@   invariant forall(j, 0, len(parts), parts[j] != nil)
+//@   decreases end + 1 - idx
